@@ -279,6 +279,14 @@ Definition str_like (t : term) : option (list Z) :=
 
 Definition as_list (t : term) : list term := match t with TArr l => l | _ => [t] end.
 
+Definition has_arr (l : list term) : bool := existsb (fun t => match t with TArr _ => true | _ => false end) l.
+(* an array of rank >= 3 (or ragged with that depth): kg_asarray of the joined list is outside the model *)
+Definition deep (t : term) : bool :=
+  match t with
+  | TArr l => existsb (fun e => match e with TArr l2 => has_arr l2 | _ => false end) l
+  | _ => false
+  end.
+
 (* eval_dyad_join *)
 Definition join (a b : term) : res :=
   match str_like a, str_like b with
@@ -286,7 +294,7 @@ Definition join (a b : term) : res :=
   | _, _ =>
       match a, b with
       | TSeq _, _ | _, TSeq _ => Err EUnmodelled
-      | _, _ => Ok (TArr (as_list a ++ as_list b))
+      | _, _ => if deep a || deep b then Err EUnmodelled else Ok (TArr (as_list a ++ as_list b))
       end
   end.
 
@@ -373,6 +381,7 @@ Definition apply1 (o : op1) (a : term) : res :=
   match o with
   | Neg => match a with
            | TInt z => Ok (TInt (- z))
+           | TStr [] => Err EUnmodelled
            | TArr l => match all_int l with Some zs => Ok (ints (map Z.opp zs)) | None => Err EUnmodelled end
            | TSeq _ => Err EUnmodelled
            | _ => Err EType
@@ -479,6 +488,25 @@ Fixpoint add_locals (ss : list name) (c : frame) : frame :=
   | s :: r => add_locals r (match lookup s c with Some _ => c | None => frame_set s (TSym s) c end)
   end.
 
+(* what _eval_fn reads off the merged argument list: its length, whether has_none() sees a
+   hole (only in a Python list, not in the numpy array of the merge), the entries *)
+Definition merged_info (m : mres) : nat * bool * list term :=
+  match m with
+  | MList None => (0%nat, false, [])
+  | MList (Some l) => (length l, existsb is_none l, l)
+  | MArr l => (length l, false, l)
+  | MErr => (0%nat, false, [])
+  end.
+
+(* the new frame and the program to run in it: x y z, then .f = the function including its
+   declaration, then the declared locals bound to themselves unless they are parameters *)
+Definition bind_frame (f : term) (vs : list term) : frame * term :=
+  let c0 := frame_set nDotF f (combine [nX; nY; nZ] vs) in
+  match local_decl f with
+  | Some (ss, body) => (add_locals ss c0, body)
+  | None => (c0, f)
+  end.
+
 Section Step.
   (* `fin` : the pop of _eval_fn sits in a `finally:` (Generated.eval_fn_pop_in_finally) *)
   Variable fin : bool.
@@ -525,26 +553,15 @@ Section Step.
         match merge_projections fixed_merge (rev f_args) with
         | MErr => (Err EType, st)
         | m =>
-            let '(n, holes, args) :=
-              match m with
-              | MList None => (0%nat, false, [])
-              | MList (Some l) => (length l, existsb is_none l, l)
-              | MArr l => (length l, false, l)
-              | MErr => (0%nat, false, [])
-              end in
+            let '(n, holes, args) := merged_info m in
+            (* (0 if f_args is None else len(f_args)) < f_arity or has_none(f_args) *)
             if (n <? f_arity)%nat || holes then (Ok x, st)
             else
               let '(o, k, st1) := eval_args st (firstn 3 args) in
               match o with
               | None => (Err k, st1)
               | Some vs =>
-                  (* .f is bound to the function including its declaration, before the declaration is stripped *)
-                  let c0 := frame_set nDotF f (combine [nX; nY; nZ] vs) in
-                  let (c2, f1) :=
-                    match local_decl f with
-                    | Some (ss, body) => (add_locals ss c0, body)
-                    | None => (c0, f)
-                    end in
+                  let (c2, f1) := bind_frame f vs in
                   let (r, st2) := callv (push c2 st1) f1 in
                   match r with
                   | Ok _ => (r, pop st2)
